@@ -28,7 +28,7 @@ def plan(tier, seed):
     for i in range(n):
         nl = int(rng.integers(0, 4))
         lead = [int(rng.integers(1, 4)) for _ in range(nl)]
-        mk = pick(['none', 'float-src', 'float-src', 'float-nosrc', 'bool-src', 'bool-nosrc', 'zero-src', 'zero-nosrc', 'partzero-src'])
+        mk = pick(['none', 'float-src', 'float-src', 'float-nosrc', 'bool-src', 'bool-nosrc', 'zero-src', 'zero-nosrc', 'partzero-src', 'partzero32-src', 'float32-src', 'zero32-nosrc'])
         layout = pick(['default', 'default', 'sensor', 'sensor+source', 'time'])
         cases.append(dict(lane='psd', lead=lead, D=int(rng.integers(1, 9)), T=int(rng.integers(1, 65)), K=int(rng.integers(1, 6)), mask=mk,
                           layout=layout, normalize=bool(rng.uniform() < 0.8), rs=[seed, 10, i]))
@@ -98,6 +98,8 @@ def run_psd(case, R):
         else:
             M = rng.uniform(0, 1, size=shp)
             M[..., 0, :] = 0.0
+        if '32' in mk:
+            M = M.astype(np.float32)          # single-precision masks (network outputs)
     normalize = case['normalize']
     ref = reference(X, M, normalize)
     # layout ------------------------------------------------------------------------------------------------
@@ -162,7 +164,7 @@ def run_psd(case, R):
         R.fail('C10.value', f'raised/{mk.split("-")[0]}-mask/{layout}', f'get_power_spectral_density_matrix raised {type(e).__name__}: {str(e)[:120]}', **desc)
         return
     got = np.asarray(got)
-    R.count(f'branch: mask={mk.split("-")[0]} {"with" if src else "without"} source axis' if mk != 'none' else 'branch: no mask')
+    R.count(f'branch: mask={mk.split("-")[0].replace("32", "")} {"with" if src else "without"} source axis' if mk != 'none' else 'branch: no mask')
     if 'source_dim' in kw and (kw['source_dim'] % n - n) < -2:
         R.count('branch: source axis rolled to the front (source_dim < -2)')
     R.check('C10.purity', np.array_equal(obs, obs_before) and (msk is None or np.array_equal(msk, msk_before)), 'purity/arguments-modified', 'the PSD call modified the observation or the mask', **desc)
@@ -174,7 +176,7 @@ def run_psd(case, R):
         return
     scale = float(np.abs(exp).max())
     dv = float(np.abs(got - exp).max())
-    R.check('C10.value', dv <= 1e-10 * scale + 1e-300, f'value/{mk.split("-")[0]}-mask/{layout}', f'PSD deviates from sum_t m x x^H / sum_t m by {dv:.3e} (scale {scale:.3e})', dev=dv, **desc)
+    R.check('C10.value', dv <= (1e-10 if '32' not in mk else 1e-5) * scale + 1e-300, f'value/{mk.split("-")[0]}-mask/{layout}', f'PSD deviates from sum_t m x x^H / sum_t m by {dv:.3e} (scale {scale:.3e})', dev=dv, **desc)
     # structure: Hermitian PSD, zero mask -> zero, rescaling invariance ---------------------------------------------
     can = got if exp is ref else np.moveaxis(got, kw['source_dim'] % n, m)
     herm = float(np.abs(can - np.swapaxes(can.conj(), -1, -2)).max())
@@ -188,7 +190,7 @@ def run_psd(case, R):
         try:
             got2 = psd(obs, np.asarray(msk_before) * a, **kw)
             dv2 = float(np.abs(got2 - got).max())
-            R.check('C10.structure', dv2 <= 1e-10 * scale, 'structure/mask-rescaling', f'normalised PSD changes by {dv2:.3e} when the mask is scaled by {a:.3g}', **desc)
+            R.check('C10.structure', dv2 <= (1e-10 if '32' not in mk else 1e-5) * scale, 'structure/mask-rescaling', f'normalised PSD changes by {dv2:.3e} when the mask is scaled by {a:.3g}', **desc)
         except Exception as e:
             if not instr.is_library_exception(e):
                 raise
